@@ -4,7 +4,7 @@
 (* `// ...` to the end of the line and `/* ... */` after `[`, after an item, after a    *)
 (* comma and after `]`.  Same shape as SchemaText (operators SInit, SStep, SVerdict)    *)
 (* so that the export and trace modules can be shared.  Left to "unspec": a comment     *)
-(* before the opening bracket, an unterminated block comment, exponents, non-plain      *)
+(* before the opening bracket, exponents, non-plain      *)
 (* UTF-8 in strings.  Equal items (which the rule refuses) are not a matter of syntax:   *)
 (* the harness sets such texts aside by the error code.                                   *)
 EXTENDS Naturals, Sequences
@@ -102,6 +102,6 @@ SVerdict(s) ==
   IF s.v = "unspec" THEN "unspec"
   ELSE IF s.v = "dead" THEN "reject"
   ELSE CASE s.st = "lc" -> IF Ret(Top(s.sk)) = "done" THEN "accept" ELSE "reject"
-         [] s.st \in {"bc", "bcStar"} -> "unspec"
+         [] s.st \in {"bc", "bcStar"} -> "reject"                        \* the input ends inside a block comment
          [] OTHER -> IF s.st = "done" /\ s.sk = <<>> THEN "accept" ELSE "reject"
 ===============================================================================
